@@ -433,3 +433,20 @@ mod tests {
   }
 }
 
+
+// Verification hook (no behaviour change): public access to the two private text
+// extractors. Compiled only with --cfg ellbur_totalmapper_verif.
+#[cfg(ellbur_totalmapper_verif)]
+pub mod verif {
+  // (sysfs path, name) of every entry the --all-keyboards extractor accepts
+  pub fn extract_keyboards(text: &str) -> Vec<(String, String)> {
+    super::extract_keyboards_from_proc_bus_input_devices(text, false)
+      .into_iter().map(|d| (d.sysfs_path, d.name)).collect()
+  }
+  
+  // (sysfs path, name, is_keyboard) of every entry the --dev-file extractor lists
+  pub fn extract_input_devices(text: &str) -> Vec<(String, String, bool)> {
+    super::extract_input_devices_from_proc_bus_input_devices(text, false)
+      .into_iter().map(|d| (d.sysfs_path, d.name, d.is_keyboard)).collect()
+  }
+}
